@@ -720,9 +720,13 @@ fn eval_case_inner(line: &str) -> String {
             let (signs, msgs) = parse_signs(k, &t[2..]);
             let mut bus = VirtualSignBus::new(signs);
             let mut out = String::new();
+            // through the SignBus trait, as Sign and Odk reach a bus (the walk's monitors call the bus directly)
+            fn via_trait<'a, B: SignBus>(b: &mut B, m: Message<'_>) -> Result<Option<Message<'a>>, Box<dyn std::error::Error + Send + Sync>> {
+                b.process_message(m)
+            }
             for m in msgs {
                 let msg = msg_of_str(m);
-                match guarded(|| bus.process_message(msg)) {
+                match guarded(|| via_trait(&mut bus, msg)) {
                     None => {
                         out.push_str("PANIC ");
                         break;
